@@ -50,6 +50,89 @@ pub fn sorted_registry(iset: &InstructionSet) -> Vec<String> {
     names
 }
 
+/// Size limit of the resource envelope of property C01 (operand-controlled allocation sizes).
+pub const ENV_SIZE: i32 = 2000;
+pub const ENV_POINTS: usize = 100_000;
+
+/// Is executing instruction `name` in state `st` (the instruction already popped) outside the
+/// resource envelope of C01? Size-like operands beyond ENV_SIZE, EXEC.CMD with a target other than
+/// the harmless `true`, or a state holding more than ENV_POINTS code points.
+pub fn outside_envelope(name: &str, st: &PushState) -> Option<String> {
+    let int_at = |i: usize| st.int_stack.get(i).copied();
+    let too_big = |v: Option<i32>| matches!(v, Some(x) if x > ENV_SIZE);
+    match name {
+        "BOOLVECTOR.ONES" | "BOOLVECTOR.ZEROS" | "INTVECTOR.ONES" | "INTVECTOR.ZEROS" | "FLOATVECTOR.ONES"
+        | "FLOATVECTOR.ZEROS" | "BOOLVECTOR.RAND" | "INTVECTOR.RAND" | "FLOATVECTOR.RAND" | "FLOATVECTOR.SINE"
+        | "LIST.NEIGHBOR*IDS" => {
+            if too_big(int_at(0)) {
+                return Some(format!("{}: size operand {}", name, int_at(0).unwrap()));
+            }
+        }
+        "LIST.NEIGHBOR*BVALS" | "LIST.NEIGHBOR*IVALS" | "LIST.NEIGHBOR*FVALS" => {
+            if too_big(int_at(1)) {
+                return Some(format!("{}: size operand {}", name, int_at(1).unwrap()));
+            }
+        }
+        "CODE.RAND" => {
+            let m = st.configuration.max_points_in_random_expressions;
+            if (m > ENV_SIZE || m < -ENV_SIZE) && matches!(int_at(0), Some(x) if x > ENV_SIZE || x < -ENV_SIZE) {
+                return Some("CODE.RAND: size operand and configured maximum beyond the envelope".to_string());
+            }
+        }
+        "EXEC.CMD" => {
+            let harmless = match int_at(0) {
+                Some(n) if n >= 0 && (n as usize) < st.name_stack.size() => {
+                    st.name_stack.get(n as usize).map(|s| s == "true").unwrap_or(false)
+                }
+                Some(_) => true, // not enough names or negative count: nothing is spawned
+                None => true,
+            };
+            if !harmless {
+                return Some("EXEC.CMD: target is not the harmless `true`".to_string());
+            }
+        }
+        _ => {}
+    }
+    None
+}
+
+pub fn total_points(st: &PushState) -> usize {
+    let mut n = 0;
+    for i in 0..st.exec_stack.size() {
+        n += pushr::push::item::Item::size(st.exec_stack.get(i).unwrap());
+    }
+    for i in 0..st.code_stack.size() {
+        n += pushr::push::item::Item::size(st.code_stack.get(i).unwrap());
+    }
+    n
+}
+
+const GUARDED: [&str; 16] = [
+    "BOOLVECTOR.ONES", "BOOLVECTOR.ZEROS", "INTVECTOR.ONES", "INTVECTOR.ZEROS", "FLOATVECTOR.ONES", "FLOATVECTOR.ZEROS",
+    "BOOLVECTOR.RAND", "INTVECTOR.RAND", "FLOATVECTOR.RAND", "FLOATVECTOR.SINE", "LIST.NEIGHBOR*IDS",
+    "LIST.NEIGHBOR*BVALS", "LIST.NEIGHBOR*IVALS", "LIST.NEIGHBOR*FVALS", "CODE.RAND", "EXEC.CMD",
+];
+
+/// Wraps the instructions named in GUARDED: outside the envelope the instruction is NOT executed,
+/// the reason is stored in `hit` and the EXEC stack is flushed so that a surrounding run() ends.
+pub fn guard_envelope(iset: &mut InstructionSet, hit: Arc<Mutex<Option<String>>>) {
+    for name in GUARDED.iter() {
+        if let Some(ins) = iset.get_instruction(name) {
+            let mut inner = std::mem::replace(&mut ins.execute, Box::new(|_, _| {}));
+            let h = hit.clone();
+            let nm = name.to_string();
+            ins.execute = Box::new(move |st, cache| {
+                if let Some(why) = outside_envelope(&nm, st) {
+                    *h.lock().unwrap() = Some(why);
+                    st.exec_stack.flush();
+                } else {
+                    (inner)(st, cache)
+                }
+            });
+        }
+    }
+}
+
 /// The default instruction set plus the harness instructions.
 pub fn new_iset(probe: &ProbeLog) -> InstructionSet {
     let mut iset = InstructionSet::new();
@@ -92,13 +175,26 @@ pub fn count_instruction_calls(iset: &mut InstructionSet, counter: Arc<AtomicUsi
 pub struct Runner {
     pub iset: InstructionSet,
     pub probe: ProbeLog,
+    pub env_hit: Arc<Mutex<Option<String>>>,
 }
 
 impl Runner {
-    pub fn new() -> Self {
+    /// `guarded`: enforce the C01 resource envelope (the C15 check runs without it).
+    pub fn new_with(guarded: bool) -> Self {
         let probe = ProbeLog::default();
-        let iset = new_iset(&probe);
-        Runner { iset, probe }
+        let mut iset = new_iset(&probe);
+        let env_hit = Arc::new(Mutex::new(None));
+        if guarded {
+            guard_envelope(&mut iset, env_hit.clone());
+        }
+        Runner { iset, probe, env_hit }
+    }
+    pub fn new() -> Self {
+        Runner::new_with(true)
+    }
+
+    fn take_env(&self) -> Option<String> {
+        self.env_hit.lock().unwrap().take()
     }
 
     fn take_ticks(&self) -> Vec<Value> {
@@ -140,6 +236,18 @@ impl Runner {
                         if !ticks.is_empty() {
                             ev["ticks"] = json!(ticks);
                         }
+                        if let Some(why) = self.take_env() {
+                            ev["envelope"] = json!(why);
+                            ev["post"] = json!({"crash": "envelope", "msg": "left the resource envelope"});
+                            writeln!(out, "{}", ev).unwrap();
+                            break 'acts;
+                        }
+                        if total_points(&st) > ENV_POINTS {
+                            ev["envelope"] = json!("more than ENV_POINTS code points");
+                            ev["post"] = json!({"crash": "envelope", "msg": "left the resource envelope"});
+                            writeln!(out, "{}", ev).unwrap();
+                            break 'acts;
+                        }
                         match r {
                             Ok(done) => {
                                 ev["post"] = project(&st);
@@ -168,6 +276,12 @@ impl Runner {
                     }
                     ev["ticks"] = json!(self.take_ticks());
                     ev["sleeps"] = json!(self.probe.calls.swap(0, Ordering::SeqCst));
+                    if let Some(why) = self.take_env() {
+                        ev["envelope"] = json!(why);
+                        ev["post"] = json!({"crash": "envelope", "msg": "left the resource envelope"});
+                        writeln!(out, "{}", ev).unwrap();
+                        break 'acts;
+                    }
                     match r {
                         Ok(o) => {
                             ev["post"] = project(&st);
